@@ -300,7 +300,11 @@ def s_unsafe(F, R):
     R.analysed["unsafe_blocks"] = seen
     # no raw-pointer deref, static mut, inline asm in the crate
     bad = []
+    from r_io import encode_roots
+    scope = closure_of(F, decode_roots(F) + encode_roots(F))
     for fid, f, b in all_bodies(F):
+        if fid not in scope and f["root"] not in scope:
+            continue
         for x in walk_all(b):
             if x.get("k") in ("InlineAsm", "RawBorrow") or (x.get("k") == "StaticRef" and x.get("mutable")):
                 bad.append((f["root"], x.get("k")))
